@@ -8,7 +8,7 @@ from .. import determinism
 from ..flow import ReachingDefs, names_loaded
 from ..program import (AnalysisError, call_name, const_str, dotted, kwarg,
                        norm_key, unparse, walk_no_nested)
-from ..util import nodes_with_call, subscript_const
+from ..util import cursor_execute_calls, nodes_with_call, subscript_const
 
 EXPLANATION = (
     'Decided clauses: R-C14.1 (order taint) no iteration over a set-valued '
@@ -56,11 +56,14 @@ def r2_capture_execute(ctx):
     f = p.func('utils.sql', 'SQLExecutor.run_sql')
     g = ctx.cfg(f)
     rd = ReachingDefs(g, f.params)
-    execs = [(n, c) for n, c in nodes_with_call(g, 'execute')
-             if (dotted(c.func) or '').split('.')[-2:-1] in (['cursor'],
-                                                             ['_cursor'])]
+    execs = cursor_execute_calls(g)
+    # the capture list is what run_sql returns
+    ret_names = {n.ast.value.id for n in g.nodes if n.kind == 'stmt' and
+                 isinstance(n.ast, ast.Return) and
+                 isinstance(n.ast.value, ast.Name)}
     caps = [(n, c) for n, c in nodes_with_call(g, 'append')
-            if dotted(c.func) == 'out_sql.append']
+            if isinstance(c.func.value, ast.Name) and
+            c.func.value.id in ret_names]
     ctx.floor('execute sites', len(execs), 1)
     ctx.floor('capture sites', len(caps), 1)
     # innermost loop head of the execute call
@@ -105,7 +108,10 @@ def r2_capture_execute(ctx):
                                 'is produced outside the statement loop')
                 continue
             n_in += 1
-            used = names_loaded(cc.args[0]) - {'qp', 'tuple'}
+            called = {x.func.id for x in ast.walk(cc.args[0])
+                      if isinstance(x, ast.Call) and
+                      isinstance(x.func, ast.Name)}
+            used = names_loaded(cc.args[0]) - called
             comp_vars = {x.id for y in ast.walk(cc.args[0])
                          if isinstance(y, ast.comprehension)
                          for x in ast.walk(y.target)
@@ -227,6 +233,35 @@ def r3_preview_classes(ctx):
             ctx.finding(f, None, "%s no longer comes from "
                         "generate_mutations_info(...)['sql']" % what,
                         key='evolution-sql-source')
+    # preview SQL (prepare) and executed SQL (_build_batches) select their
+    # mutations with the same function: both calls must name the database
+    # (it selects database-specific .sql evolution files)
+    sel = {}
+    for f in (pr, bb):
+        for c in walk_no_nested(f.node):
+            if isinstance(c, ast.Call) and \
+                    call_name(c) == 'get_app_pending_mutations':
+                sel[f.qualname] = c
+    if len(sel) == 2:
+        for q, c in sorted(sel.items()):
+            db = kwarg(c, 'database')
+            if db is not None and 'database' in unparse(db):
+                ctx.ok(p.func('evolve.evolve_app_task', q),
+                       'pending mutations are selected for the evolved '
+                       'database (database=%s)' % unparse(db), c)
+            else:
+                ctx.finding(p.func('evolve.evolve_app_task', q), c,
+                            'get_app_pending_mutations is called without '
+                            'database= here but with it at the sibling site: '
+                            'preview and execution can load different '
+                            'evolution files (<db>_<label>.sql) for the same '
+                            'upgrade', key='pending-mutations-no-database')
+        labs = {q: unparse(kwarg(c, 'evolution_labels') or ast.Constant(None))
+                for q, c in sel.items()}
+    else:
+        ctx.finding(pr, None, 'prepare and _build_batches no longer both '
+                    'select mutations through get_app_pending_mutations',
+                    key='pending-selection-sites')
     gmi = p.func('evolve.evolve_app_task',
                  'EvolveAppTask.generate_mutations_info')
     ret_sql = None
